@@ -106,13 +106,67 @@ def _interp(ctx):
                     detail="np.interp over the result's own frequency grid, clamped to the array's own end samples" + (", real and imaginary parts separately" if is_complex else ""))
 
 
+def _state_protocol(ctx, cls, defined, where):
+    """a class that customises copy/pickle must carry over every instance attribute that __init__ establishes."""
+    custom = [m for m in ("__getstate__", "__setstate__", "__reduce__", "__reduce_ex__", "__copy__", "__deepcopy__") if m in defined]
+    rule = "R3-state-survives-copy"
+    if not custom:
+        ctx.holds(rule, CLS, "default protocol: copy/deepcopy/pickle carry the whole instance __dict__", where); return
+    init = ctx.repo.get(CLS + ".__init__")
+    me = init.args.args[0].arg
+    inst = {n.attr for n in ast.walk(init) if isinstance(n, ast.Attribute) and isinstance(n.value, ast.Name) and n.value.id == me and isinstance(n.ctx, ast.Store)}
+    if any(m in defined for m in ("__reduce__", "__reduce_ex__", "__copy__", "__deepcopy__")):
+        ctx.unknown(rule, CLS, f"custom {', '.join(custom)}: reconstruction path not modelled", where); return
+    methods = {n.name: n for n in cls.body if isinstance(n, ast.FunctionDef)}
+
+    def shipped():
+        g = methods.get("__getstate__")
+        if g is None: return set(inst), True
+        gs = g.args.args[0].arg
+        rets = [n.value for n in ast.walk(g) if isinstance(n, ast.Return) and n.value is not None]
+        if len(rets) != 1: return None, False
+        r = rets[0]
+        if isinstance(r, ast.Dict) and all(isinstance(k, ast.Constant) and isinstance(k.value, str) for k in r.keys):
+            return {k.value for k in r.keys}, False          # keys are the author's own names: only meaningful to a matching __setstate__
+        if isinstance(r, ast.Name):
+            # state = self.__dict__.copy() / dict(self.__dict__) followed by deletions
+            src = [a for a in ast.walk(g) if isinstance(a, ast.Assign) and isinstance(a.targets[0], ast.Name) and a.targets[0].id == r.id]
+            if len(src) == 1 and f"{gs}.__dict__" in ast.unparse(src[0].value):
+                removed = set()
+                for n in ast.walk(g):
+                    if isinstance(n, ast.Delete):
+                        for t in n.targets:
+                            if isinstance(t, ast.Subscript) and isinstance(t.value, ast.Name) and t.value.id == r.id and isinstance(t.slice, ast.Constant): removed.add(t.slice.value)
+                    if isinstance(n, ast.Call) and isinstance(n.func, ast.Attribute) and n.func.attr == "pop" and isinstance(n.func.value, ast.Name) and n.func.value.id == r.id and n.args and isinstance(n.args[0], ast.Constant):
+                        removed.add(n.args[0].value)
+                return set(inst) - removed, True
+        return None, False
+    ship, by_attr_name = shipped()
+    sset = methods.get("__setstate__")
+    if ship is None:
+        ctx.unknown(rule, CLS, "__getstate__ not recognised", where); return
+    if sset is None:
+        restored = set(ship) if by_attr_name else {k for k in ship if k in inst}
+    else:
+        ss = sset.args.args[0].arg
+        restored = {n.attr for n in ast.walk(sset) if isinstance(n, ast.Attribute) and isinstance(n.value, ast.Name) and n.value.id == ss and isinstance(n.ctx, ast.Store)}
+        txt = ast.unparse(sset)
+        if f"{ss}.__dict__.update(" in txt or f"{ss}.__dict__ = " in txt:
+            restored |= (set(ship) if by_attr_name else {k for k in ship if k in inst})
+    missing = sorted(inst - restored)
+    if missing:
+        ctx.violated(rule, CLS, f"copy / deepcopy / pickle rebuild the result through {', '.join(custom)}, which do not restore the instance attribute(s) {missing} set by __init__: "
+                     "a clone is not the original (reads fall through to __getattr__ or raise AttributeError)", f"speckit/analysis.py:{(sset or methods['__getstate__']).lineno}")
+    else:
+        ctx.holds(rule, CLS, f"custom state protocol restores all {len(inst)} instance attributes", where)
+
+
 def _reconstruction(ctx):
     cls = ctx.repo.get(CLS)
     fn = ctx.repo.get(GETATTR)
     where = ctx.repo.where(GETATTR, fn)
     defined = {n.name for n in cls.body if isinstance(n, ast.FunctionDef)}
-    if "__setstate__" in defined and ("__getstate__" in defined or "__reduce__" in defined or "__reduce_ex__" in defined):
-        ctx.holds("R3-reconstruction-safety", CLS, "class defines its own state protocol", where)
+    _state_protocol(ctx, cls, defined, where)
     selfname = fn.args.args[0].arg
     reads = []
     for n in ast.walk(fn):
